@@ -134,6 +134,8 @@ func NewApp(r Repo, l *Logger) *App      { return &App{} }
 func NewAppS(s *Service) *App            { return &App{} }
 func NewAppN(name string, l *Logger) *App { return &App{} }
 func NewAppNP(name string, port int, l *Logger) *App { return &App{} }
+func NewAppBoth(p *PG, r Repo, l *Logger) *App   { return &App{} }
+func NewAppBoth2(r Repo, p *PG, l *Logger) *App  { return &App{} }
 `
 
 func feature(name, desc, wire string, injectors ...string) *Config {
@@ -193,6 +195,17 @@ func InitApp(dsn string) (*App, error) {
 			"types.go": strings.Replace(featTypes, "package cfg\n", "package cfg\n\nimport \"strings\"\n", 1) + "\nfunc NewBuilder(l *Logger) (*strings.Builder, error) { return &strings.Builder{}, nil }\n",
 			"wire.go":  "//go:build wireinject\n\npackage cfg\n\nimport (\n\t\"strings\"\n\n\t\"github.com/google/wire\"\n)\n\nfunc InitBuilder() (*strings.Builder, error) {\n\twire.Build(NewLogger, NewBuilder)\n\treturn nil, nil\n}\n",
 		}})
+	out = append(out, feature("bind-both", "bound implementation needed as concrete type and through the interface, concrete first", `
+func InitApp(dsn string) (*App, error) {
+	wire.Build(NewPG, wire.Bind(new(Repo), new(*PG)), NewDB, NewLogger, NewAppBoth)
+	return nil, nil
+}
+
+func InitApp2(dsn string) (*App, error) {
+	wire.Build(NewPG, wire.Bind(new(Repo), new(*PG)), NewDB, NewLogger, NewAppBoth2)
+	return nil, nil
+}
+`, "InitApp", "InitApp2"))
 	out = append(out, feature("value", "Value of a basic type", `
 func InitApp() *App {
 	wire.Build(wire.Value("svc"), NewLogger, NewAppN)
